@@ -25,6 +25,15 @@ impl Payload {
     #[verifier::external_body]
     pub fn is_empty(&self) -> (r: bool) ensures r == (self.spec_len() == 0) { unimplemented!() }
 }
+
+/// R35: `v.extend(x)` (this Verus has no specification for Vec::extend): the elements x yields are appended in order -- an Option yields none or one, a Vec all of its elements
+pub trait IntoSeqS<T>: Sized { spec fn seq_of(self) -> Seq<T>; }
+impl<T> IntoSeqS<T> for Option<T> { open spec fn seq_of(self) -> Seq<T> { match self { Some(x) => seq![x], None => Seq::<T>::empty() } } }
+impl<T> IntoSeqS<T> for Vec<T> { open spec fn seq_of(self) -> Seq<T> { self@ } }
+#[verifier::external_body]
+pub fn vec_extend_s<T, I: IntoSeqS<T>>(v: &mut Vec<T>, it: I)
+    ensures final(v)@ == old(v)@ + it.seq_of(),
+{ unimplemented!() }
 /// session::frame::SessionOutgoingItem
 pub enum SessionOutgoingItem { SingleFrame(SessionFrame), MultipleFrames(Vec<SessionFrame>) }
 #[derive(Clone, Copy)]
